@@ -64,7 +64,7 @@ def in_domain(x):
 
 
 def has_ws_only_line(x):
-    return any(l != '' and l.strip() == '' for l in x.split('\n'))
+    return any(l not in ('', '\r') and l.strip() == '' for l in x.split('\n'))       # ('\r': blank line of a CR LF document)
 
 
 def parse(text, ts):
@@ -178,10 +178,15 @@ def neutralise_setext(x, ts):
     return y
 
 
+def _odd_ws(c):
+    # whitespace for str.strip / \s but not for CommonMark; CR is a line ending (CR LF documents) and never neutralised
+    return c.isspace() and c not in ' \n\r'
+
+
 def neutralise_unicode_ws(x):
-    if not any(c.isspace() and c not in ' \n' for c in x):
+    if not any(_odd_ws(c) for c in x):
         return None
-    return ''.join('x' if (c.isspace() and c not in ' \n') else c for c in x)
+    return ''.join('x' if _odd_ws(c) else c for c in x)
 
 
 def law(case, x):
@@ -202,7 +207,7 @@ def classify(clause, key, case, detail):
         used = []
         if 'C04-unicode-whitespace' in fids:
             z = neutralise_unicode_ws(y)
-            if z is not None and not in_domain(z) and (case['law'] == 'quote' or z[0] not in ' \n'):
+            if z is not None and not in_domain(z) and (case['law'] == 'quote' or z[0] not in ' \n\r'):
                 if law(case, z) is None:
                     return 'C04-unicode-whitespace'
                 y = z
@@ -244,7 +249,7 @@ def check(ctx, x, source, markers=None):
                 ctx.violation(r[0], 'quote: ' + r[1], case, **r[2])
             else:
                 ctx.count('held', 'quote')
-        if x[0] in ' \n':
+        if x[0] in ' \n\r':
             ctx.count('skipped_by_filter', 'list law: first line blank or starting with a space')
             continue
         if has_ws_only_line(x):
@@ -255,7 +260,7 @@ def check(ctx, x, source, markers=None):
         for marker in (markers or rng.sample(list_markers(rng), 3)):
             pad = rng.randint(1, 4)
             first = list_embed(x, marker, pad).split('\n')[0]
-            if HR.match(first):
+            if HR.match(first.rstrip('\r')):
                 ctx.count('skipped_by_filter', 'marker + first line is a thematic break')
                 continue
             ctx.ev()
@@ -279,7 +284,7 @@ def plan(tier):
     return {'shards': 16, 'budget_s': 600}
 
 
-SIZES = {'quick': dict(n=3600), 'thorough': dict(n=60000)}
+SIZES = {'quick': dict(n=8000), 'thorough': dict(n=120000)}
 PINNED = ['```\na\n\nb\n```\n', '<pre>\na\n\nb\n</pre>\n', '<!--\n\nc\n-->\nx\n', '    code\n\n    more\n\ntext\n', 'a | b\n--|--\nc | d\n',
           '[l]: /u "t"\n\n[l] text\n', '- a\n- b\n\n  c\n', '1. x\n   > q\n', 'p\nlazy\n\n> q\nlazy\n', '# h\n***\n', '~~~ info\n x\n~~~\n', 'a  \nb\\\nc\n']
 
@@ -294,9 +299,11 @@ def run(ctx):
     for i, w in enumerate(PINNED):
         if i % ctx.nshards == ctx.shard:
             check(ctx, w, 'pinned', markers=['-', '1.', '123456789)'])
+            check(ctx, w.replace('\n', '\r\n'), 'pinned-crlf', markers=['-', '1.', '123456789)'])
     for i, ex in enumerate(workloads.spec()):
         if i % ctx.nshards == ctx.shard:
             check(ctx, ex['markdown'], 'spec')
+            check(ctx, ex['markdown'].replace('\n', '\r\n'), 'spec-crlf')
     for k in range(sz['n'] // ctx.nshards):
         if ctx.out_of_time():
             break
@@ -309,6 +316,8 @@ def run(ctx):
             if rng.random() < 0.6:
                 x = '\n'.join(l if l.strip() else '' for l in x.split('\n'))
             x = x.rstrip('\n') + '\n'
+        if rng.random() < 0.12:
+            kind, x = kind + '-crlf', x.replace('\n', '\r\n')       # the same document with CR LF line endings
         check(ctx, x, kind)
         if k < 2:
             ctx.sample({'x': x, 'quoted': quote_embed(x, '> '), 'listed': list_embed(x, '1.', 2)})
